@@ -329,6 +329,33 @@ def _with_from_acquire(fn):
     return n_done
 
 
+def _with_suppress(fn):
+    """`with contextlib.suppress(E1, E2): BODY` is `try: BODY except (E1, E2): pass` (the documented equivalence; only for the
+    single-item form without `as`). Returns the number of rewrites."""
+    n_done = 0
+    for node in ast.walk(fn):
+        for fld in ("body", "orelse", "finalbody"):
+            body = getattr(node, fld, None)
+            if not isinstance(body, list):
+                continue
+            for i, st in enumerate(body):
+                if isinstance(st, ast.With) and len(st.items) == 1 and st.items[0].optional_vars is None:
+                    c = st.items[0].context_expr
+                    if isinstance(c, ast.Call) and not c.keywords and c.args and not any(isinstance(a, ast.Starred) for a in c.args) and (
+                            (isinstance(c.func, ast.Attribute) and c.func.attr == "suppress" and isinstance(c.func.value, ast.Name)
+                             and c.func.value.id == "contextlib") or (isinstance(c.func, ast.Name) and c.func.id == "suppress")):
+                        typ = c.args[0] if len(c.args) == 1 else ast.Tuple(elts=list(c.args), ctx=ast.Load())
+                        h = ast.ExceptHandler(type=typ, name=None, body=[ast.Pass()])
+                        t = ast.Try(body=st.body, handlers=[h], orelse=[], finalbody=[])
+                        ast.copy_location(t, st)
+                        ast.copy_location(h, st)
+                        ast.copy_location(h.body[0], st)
+                        ast.fix_missing_locations(t)
+                        body[i] = t
+                        n_done += 1
+    return n_done
+
+
 class Repo:
     def __init__(self, root=None, package="rpyc", overrides=None, inline=True):
         self.root = os.path.abspath(root or os.environ.get("VERIF_REPO", "/repo"))
@@ -423,6 +450,7 @@ class Repo:
             n = TI.fold_aliases(f.node, kl.get(q, set()), stable.get(owner.cls.qual, set()) if owner is not None else set())
             n += TI.normalise_function(f.node, kl.get(q, set()))
             n += _with_from_acquire(f.node)
+            n += _with_suppress(f.node)
             n += _splice_starred_displays(f.node)
             if owner is not None:
                 n += self._with_self_to_finally(f.node, owner.cls)
